@@ -54,6 +54,15 @@ def tag_payload(reg: int, n: int) -> bytes:
     return (reg & 0xFFFF).to_bytes(2, "big") * n
 
 
+def _read_payload(sc: dict, reg: int, n: int, reg_shift: int) -> bytes:
+    """Payload of a read answer: the register tag, or the content the scenario prescribes for this register."""
+    hx = (sc.get("payloads") or {}).get(str(reg))
+    if hx is not None and reg_shift == 0:
+        b = bytes.fromhex(hx)
+        return (b * (2 * n // max(1, len(b)) + 1))[:2 * n]
+    return tag_payload(reg + reg_shift, n)
+
+
 def valid_answer(sc: dict, req: bytes, reg_shift: int = 0) -> bytes | None:
     fr = sc["fr"]
     p = F.parse_request(fr, req)
@@ -61,18 +70,18 @@ def valid_answer(sc: dict, req: bytes, reg_shift: int = 0) -> bytes | None:
         return None
     if fr == "rtu":
         if p["fn"] == 3:
-            return F.rtu_read_answer(p["addr"], tag_payload(p["reg"] + reg_shift, p["n"]))
+            return F.rtu_read_answer(p["addr"], _read_payload(sc, p["reg"], p["n"], reg_shift))
         return F.rtu_write_answer(p["addr"], p["fn"], p["reg"] + reg_shift, p["n"])
     if fr == "tcp":
         if p["fn"] == 3:
-            return F.tcp_read_answer(p["tx"], p["addr"], tag_payload(p["reg"] + reg_shift, p["n"]))
+            return F.tcp_read_answer(p["tx"], p["addr"], _read_payload(sc, p["reg"], p["n"], reg_shift))
         return F.tcp_write_answer(p["tx"], p["addr"], p["fn"], p["reg"] + reg_shift, p["n"])
     if fr == "aa55":
         ctl, fn, pl = p["ctl"], p["fn"], p["payload"]
         rt = (ctl << 8) | (fn | 0x80)
         if ctl == 1 and fn == 0x1A:  # read registers
             reg = int.from_bytes(pl[0:2], "big")
-            return F.aa55_answer(rt, tag_payload(reg + reg_shift, pl[2]))
+            return F.aa55_answer(rt, _read_payload(sc, reg, pl[2], reg_shift))
         if ctl == 2:
             return F.aa55_answer(rt, b"\x06")
         n = sc.get("aa55_len", 8)
@@ -149,6 +158,9 @@ class Peer:
             return
         if k == "ans":
             tr.deliver(ans, d, "ans")
+        elif k == "anstrail":
+            # a conforming Modbus/RTU answer followed by trailing bytes (the statement of C02 allows them)
+            tr.deliver(ans + bytes.fromhex(f.get("trail", "0000")), d, "ans")
         elif k == "late":
             tr.deliver(ans, T + 1 + d, "late")
         elif k == "garbage":
